@@ -456,3 +456,123 @@ def _c09(fb, rep):
 
 
 RULES.update({'C01': c01, 'C07': c07, 'C09': _c09, 'C19': c19})
+
+
+# ================================================================================================ third batch (F103 - F106)
+def _calls_on(f, obj, names):
+    return [n for n in f.nodes if n.k == 'CXXMemberCallExpr' and n.short in names and n.obj() is not None and render(strip(n.obj())).replace('this->', '') == obj]
+
+
+def c11c(fb, rep):
+    """R11.8: SoPlexBase holds either no rational factorization or a usable one (_isConsistent() asserts UNLOADED or OK): in
+    computeBasisInverseRational() every path from the factorization to a return on which the status is not OK discards it
+    (_rationalLUSolver.clear()).  (F103)"""
+    from engine import Assume
+    rep.rule('R11.8', 'computeBasisInverseRational(): a factorization whose status is not OK is discarded before returning', floor=1)
+    f = fb.one(C + '::computeBasisInverseRational')
+    fac = [n for n in f.nodes if n.k == 'CXXMemberCallExpr' and n.short == '_computeBasisInverseRational']
+    if not fac:
+        raise AnalysisBroken('R11.8: computeBasisInverseRational() no longer calls _computeBasisInverseRational()')
+
+    def hook(n, txt):
+        m = re.fullmatch(r'\(?_rationalLUSolver\.status\(\) (==|!=) (?:SLinSolverRational::)?OK\)?', txt)
+        if m:
+            return m.group(1) == '!='
+        return None
+    g = Graph(f, Assume(hook=hook))
+    for n in fac:
+        ok, path = g.must_pass(lambda x: x.k == 'CXXMemberCallExpr' and x.short == 'clear' and x.obj() is not None and render(strip(x.obj())).replace('this->', '') == '_rationalLUSolver',
+                               start=g.block_of(n))
+        rep.check(ok, 'R11.8', 'computeBasisInverseRational|failed-factorization-discarded', '%s:%d' % (f.file, n.l), 'clear() on every not-OK path to the exit',
+                  'a path from the factorization to the return with status() != OK does not call _rationalLUSolver.clear(): a SINGULAR / TIME factorization stays loaded and '
+                  '_isConsistent() (UNLOADED or OK) aborts the next optimize() or the destructor' + (' [blocks %s]' % path if path else ''))
+
+
+PAIRS_EXACT = (('_lift', '_project'), ('_transformEquality', '_untransformEquality'), ('_transformUnbounded', '_untransformUnbounded'),
+               ('_transformFeasibility', '_untransformFeasibility'))
+
+
+def c20c(fb, rep):
+    """R20.7: the exact solver extends the LP by auxiliary columns / rows (_lift, _transformEquality, _transformUnbounded, _transformFeasibility add them to
+    _rationalLP); the solution getters (and through them SoPlex_getPrimalReal, ...RedCost, ...Slacks, ...Dual of the C interface) copy the WHOLE internal
+    vector into the caller's array after testing only dim >= numCols().  The function that undoes the extension therefore cuts sol._primal and sol._redCost
+    (columns added) and sol._slacks and sol._dual (rows added) back on EVERY path to its exit, not only in the branches that use the vector.  (F105, F106)"""
+    rep.rule('R20.7', 'the undo of every LP extension of the exact solver re-dimensions the solution vectors of the extended kind on every path', floor=10)
+    k = 0
+    for tname, uname in PAIRS_EXACT:
+        t = fb.one(C + '::' + tname)
+        u = fb.one(C + '::' + uname)
+        if not _calls_on(t, '_rationalLP', ('addCol', 'addCols', 'addRow', 'addRows')):
+            rep.unrec('R20.7', uname + '|extension', t.where(), '%s adds neither columns nor rows to _rationalLP: the pairing table is out of date' % tname)
+            continue
+        # which dimensions the extension changes is read from the undo function itself: it names the original count it restores
+        # (addRow() with an entry in a new column index also adds a column, so the add calls do not tell)
+        names = set(x.n if x.k == 'DeclRefExpr' else x.short for x in u.nodes if x.k in ('DeclRefExpr', 'MemberExpr'))
+        names = set(str(x).split('::')[-1] for x in names if x)
+        adds_cols = bool(names & {'numOrigCols', '_beforeLiftCols'})
+        adds_rows = bool(names & {'numOrigRows', '_beforeLiftRows'})
+        need = []
+        if adds_cols:
+            need += ['sol._primal', 'sol._redCost']
+        if adds_rows:
+            need += ['sol._slacks', 'sol._dual']
+        g = Graph(u, None)
+        for v in need:
+            ok, path = g.must_pass(lambda x: x.k == 'CXXMemberCallExpr' and x.short == 'reDim' and x.obj() is not None and render(strip(x.obj())) == v)
+            k += 1
+            rep.check(ok, 'R20.7', '%s|%s' % (uname, v), u.where(), 'reDim on every path',
+                      '%s extends the LP by %s; %s has a path to its exit on which %s keeps the entries of the extension: the getters copy the whole vector into an array of '
+                      'the original dimension (write beyond the length the caller gave)' % (tname, 'columns' if v in ('sol._primal', 'sol._redCost') else 'rows', uname, v))
+    if k < 10:
+        raise AnalysisBroken('R20.7: only %d obligations' % k)
+
+
+def c03c(fb, rep):
+    """R03.11: a statement that re-sizes / re-dimensions an array is never followed directly by a second one on the same array (the first is dead: copy-and-paste
+    slip, the second was meant for the sibling array - F104 `_basisStatusCols.reSize(numOrigCols); _basisStatusCols.reSize(numOrigRows);`); and where the exact
+    solver re-sizes one of the two basis status arrays to a number of rows / columns, the array is the one of that kind."""
+    rep.rule('R03.11', 'exact solver: no array is re-sized twice in a row; _basisStatusRows / _basisStatusCols are re-sized to a row / column count respectively', floor=20)
+    k = 0
+    for f in sorted(fb.methods_of(C), key=lambda g: (g.file, g.line)):
+        if not f.nodes or not (f.file.endswith('solverational.hpp') or f.file.endswith('soplex.hpp') or f.file.endswith('solvereal.hpp')):
+            continue
+        for n in f.nodes:
+            if n.k != 'CompoundStmt':
+                continue
+            prev = None
+            for s in n.kids:
+                s_ = strip(s)
+                cur = None
+                if s_ is not None and s_.k == 'CXXMemberCallExpr' and s_.short in ('reSize', 'reDim') and s_.obj() is not None:
+                    cur = (render(strip(s_.obj())).replace('this->', ''), s_)
+                    o, a = cur[0], ' '.join(render(x) for x in s_.args()[:1])
+                    if o in ('_basisStatusRows', '_basisStatusCols'):
+                        k += 1
+                        rowish = bool(re.search(r'Rows?\b|Rows\(', a))
+                        colish = bool(re.search(r'Cols?\b|Cols\(', a))
+                        wrong = (o == '_basisStatusRows' and colish and not rowish) or (o == '_basisStatusCols' and rowish and not colish)
+                        rep.check(not wrong, 'R03.11', '%s|%s.%s(%s)#%d' % (f.short, o, s_.short, a[:30], k), '%s:%d' % (f.file, s_.l), 'kind agrees',
+                                  '%s is re-sized to %s, a number of %s' % (o, a, 'rows' if rowish else 'columns'))
+                    if prev is not None and prev[0] == cur[0]:
+                        k += 1
+                        rep.bad('R03.11', '%s|%s twice#%d' % (f.short, cur[0], k), '%s:%d' % (f.file, s_.l),
+                                '%s is re-sized in two consecutive statements (lines %d and %d): the first has no effect, the second was meant for another array' % (cur[0], prev[1].l, s_.l))
+                prev = cur
+    if k < 20:
+        raise AnalysisBroken('R03.11: only %d re-size statements of the basis status arrays found' % k)
+
+
+_c11a, _c03a = RULES['C11'], RULES['C03']
+
+
+def _c11(fb, rep):
+    _c11a(fb, rep)
+    c11c(fb, rep)
+
+
+def _c03(fb, rep):
+    _c03a(fb, rep)
+    c03c(fb, rep)
+
+
+RULES.update({'C11': _c11, 'C03': _c03, 'C20': c20c})
